@@ -122,6 +122,9 @@ def run_c14(tier, seed):
         ro = impl.load(src)
         tree = TJ.to_tree(ro.xml)
         original = {'message_id': ro.message_id, 'ro_id': ro.ro_id}
+        if tree != TJ.parse(src):
+            oc.failing.append({'kind': 'roundtrip', 'source': src, 'label': f'rich doc #{k}', 'text': src, 'state_has_cr': False,
+                               'spec': 'the document as loaded by the library differs from what the XML says (text, attributes or special characters not intact)'})
         text = check_state(oc, 'C14', ro, tree, f'rich doc #{k}' + (' (with U+000D)' if with_cr else ''), {'source': src}, original)
         if text is not None:
             states.append((tree, text))
@@ -205,6 +208,8 @@ def replay(pid, fl):
             except Exception:  # noqa: BLE001
                 pass
     tree = TJ.to_tree(ro.xml)
+    if 'source' in fl and tree != TJ.parse(fl['source']):
+        oc.failing.append({'spec': 'the loaded document differs from what the XML says'})
     check_state(oc, pid, ro, tree, 'replay', {}, original)
     print(json.dumps([f.get('spec') for f in oc.failing], indent=1))
     if oc.failing:
